@@ -125,3 +125,15 @@ class Check:
             # scratch (scripts, recorded traces, TLC metadirs) is large; replays of violations were copied out above
             shutil.rmtree(self.work, ignore_errors=True)
         return 1 if self.violations else 0
+
+
+def sweep_jails():
+    """the fs harness chroots into .work/jails/cr-<pid> and empties it when it ends; the empty directories are removed here"""
+    d = os.path.join(VERIF, ".work", "jails")
+    if os.path.isdir(d):
+        for n in os.listdir(d):
+            if n.startswith("cr-"):
+                try:
+                    os.rmdir(os.path.join(d, n))
+                except OSError:
+                    pass
